@@ -160,17 +160,25 @@ def check_sensor_table(ctx, case):
     seen = set()
     case = dict(case, keys=[km for km in case['keys'] if not (km[0] in seen or seen.add(km[0]))])   # one entry per key
     for i, (k, mut) in enumerate(case['keys']):
-        if mut:
+        if mut == 2:
+            ts.set_indexed(k, 'sub', 100 + i)          # an indexed key is no sensor either
+        elif mut:
             ts.add(k, 200.0 + i, ts=1.0)
         else:
             ts[k] = 100 + i
     view = make_view(ts, cb, chain, kind)
     prefixes = list(view.prefixes)
-    src = TelstateDataSource(view, cb, chain[0], chunk_store=None, timestamps=np.arange(3.0))
+    try:
+        src = TelstateDataSource(view, cb, chain[0], chunk_store=None, timestamps=np.arange(3.0))
+    except Exception as e:   # noqa
+        ctx.disagree('what=sensor_table;view=%s;symptom=raises;exc=%s' % (kind, type(e).__name__), case, repr(e)[:200], None,
+                     'the data source cannot be constructed on this set of keys')
+        ctx.note_case(('sensors', repr(case)))
+        return
     got = {n: g.name for n, g in src.metadata.sensors.items()}
-    mutable = {k for k, m in case['keys'] if m}
+    mutable = {k for k, m in case['keys'] if m is True or m == 1}
     # the DATA of a sensor are those stored under the chosen key
-    stored = {k: 200.0 + i for i, (k, m) in enumerate(case['keys']) if m}
+    stored = {k: 200.0 + i for i, (k, m) in enumerate(case['keys']) if k in mutable}
     wrong_data = {n: k for n, k in got.items() if k in stored and list(src.metadata.sensors[n].get().value) != [stored[k]]}
     if wrong_data:
         ctx.disagree('what=sensor_data;view=%s' % kind, case, wrong_data, None, 'a sensor does not deliver the data stored under its key')
@@ -227,7 +235,7 @@ def gen_sensor_case(rng):
     keys = {}
     for n in names:
         for q in rng.sample(spec, rng.randint(0, min(4, len(spec)))):
-            keys[q + n] = rng.random() < 0.8
+            keys[q + n] = rng.random() < 0.8 or (2 if rng.random() < 0.25 else False)
     for _ in range(rng.randint(0, 3)):
         keys[rng.choice(['zz_', 'cb_other_', 'other_', cb]) + rng.choice(names)] = rng.random() < 0.7
     if rng.random() < 0.3:
@@ -317,6 +325,11 @@ def build_ids_fixture(layout_seed):
                 ts[ts.join(cb, sn, 'marker')] = cb + '/' + sn
             ts[ts.join(cb, 'marker')] = cb + '/-'
         ts['marker'] = '-/-'
+        # the defaults are the GLOBAL keys of the file: the same key names in other namespaces are decoys
+        for q, (dcb, dsn) in ((cbid + '_', ('cbU', 'alt_l0')), ('cbK_', ('cbU', 'alt_l0')), (stream + '_', ('cbK', 'alt_l0')),
+                              ('alt_l0_', ('cbK', 'sdp_l0')), (ts.join(cbid, stream) + '_', ('cbK', 'alt_l0'))):
+            ts[q + 'capture_block_id'] = dcb
+            ts[q + 'stream_name'] = dsn
         spaces = [ts.join(cb, sn) + '_' for cb in CBS for sn, _ in STREAMS] + [cb + '_' for cb in CBS] \
             + [sn + '_' for sn, _ in STREAMS] + ['']
         for i, q in enumerate(spaces):
